@@ -15,44 +15,58 @@ type apiOp struct {
 	name string
 	do   func(s tcell.Screen)
 	sim  bool // also meaningful on SimulationScreen
+	simOnly bool // SimulationScreen's own methods
 }
 
 func apiOps() []apiOp {
 	st := tcell.StyleDefault.Foreground(tcell.ColorRed).Bold(true)
 	return []apiOp{
-		{"Show", func(s tcell.Screen) { s.Show() }, true},
-		{"Sync", func(s tcell.Screen) { s.Sync() }, true},
-		{"SetContent", func(s tcell.Screen) { s.SetContent(1, 0, 'x', nil, st) }, true},
-		{"GetContent", func(s tcell.Screen) { s.GetContent(1, 0) }, true},
-		{"Fill", func(s tcell.Screen) { s.Fill('f', st) }, true},
-		{"Clear", func(s tcell.Screen) { s.Clear() }, true},
-		{"SetStyle", func(s tcell.Screen) { s.SetStyle(st) }, true},
-		{"ShowCursor", func(s tcell.Screen) { s.ShowCursor(1, 1) }, true},
-		{"SetCursorStyle", func(s tcell.Screen) { s.SetCursorStyle(tcell.CursorStyleSteadyBar, tcell.ColorRed) }, false},
-		{"Size", func(s tcell.Screen) { s.Size() }, true},
-		{"SetSize", func(s tcell.Screen) { s.SetSize(5, 3) }, true},
-		{"EnableMouse", func(s tcell.Screen) { s.EnableMouse() }, true},
-		{"DisableMouse", func(s tcell.Screen) { s.DisableMouse() }, true},
-		{"EnablePaste", func(s tcell.Screen) { s.EnablePaste() }, true},
-		{"EnableFocus", func(s tcell.Screen) { s.EnableFocus() }, false},
-		{"Beep", func(s tcell.Screen) { _ = s.Beep() }, false},
-		{"CanDisplay", func(s tcell.Screen) { s.CanDisplay('é', true) }, true},
-		{"HasKey", func(s tcell.Screen) { s.HasKey(tcell.KeyF5) }, false},
-		{"HasMouse", func(s tcell.Screen) { s.HasMouse() }, false},
-		{"Colors", func(s tcell.Screen) { s.Colors() }, false},
-		{"CharacterSet", func(s tcell.Screen) { s.CharacterSet() }, false},
-		{"RegisterRuneFallback", func(s tcell.Screen) { s.RegisterRuneFallback(0x2603, "*") }, true},
-		{"UnregisterRuneFallback", func(s tcell.Screen) { s.UnregisterRuneFallback(tcell.RuneBullet) }, true},
-		{"SetTitle", func(s tcell.Screen) { s.SetTitle("t") }, true},
-		{"SetClipboard", func(s tcell.Screen) { s.SetClipboard([]byte("c")) }, true},
-		{"GetClipboard", func(s tcell.Screen) { s.GetClipboard() }, false},
-		{"LockRegion", func(s tcell.Screen) { s.LockRegion(0, 0, 1, 1, true) }, true},
-		{"PostEvent", func(s tcell.Screen) { _ = s.PostEvent(tcell.NewEventInterrupt(1)) }, true},
-		{"PollEvent", func(s tcell.Screen) { _ = s.PostEvent(tcell.NewEventInterrupt(2)); s.PollEvent() }, true},
-		{"HasPendingEvent", func(s tcell.Screen) { s.HasPendingEvent() }, true},
-		{"Suspend", func(s tcell.Screen) { _ = s.Suspend() }, false},
-		{"SuspendResume", func(s tcell.Screen) { _ = s.Suspend(); _ = s.Resume() }, false},
-		{"Fini", func(s tcell.Screen) { s.Fini() }, true},
+		{"Show", func(s tcell.Screen) { s.Show() }, true, false},
+		{"Sync", func(s tcell.Screen) { s.Sync() }, true, false},
+		{"SetContent", func(s tcell.Screen) { s.SetContent(1, 0, 'x', nil, st) }, true, false},
+		{"GetContent", func(s tcell.Screen) { s.GetContent(1, 0) }, true, false},
+		{"Fill", func(s tcell.Screen) { s.Fill('f', st) }, true, false},
+		{"Clear", func(s tcell.Screen) { s.Clear() }, true, false},
+		{"SetStyle", func(s tcell.Screen) { s.SetStyle(st) }, true, false},
+		{"ShowCursor", func(s tcell.Screen) { s.ShowCursor(1, 1) }, true, false},
+		{"SetCursorStyle", func(s tcell.Screen) { s.SetCursorStyle(tcell.CursorStyleSteadyBar, tcell.ColorRed) }, false, false},
+		{"Size", func(s tcell.Screen) { s.Size() }, true, false},
+		{"SetSize", func(s tcell.Screen) { s.SetSize(5, 3) }, true, false},
+		{"EnableMouse", func(s tcell.Screen) { s.EnableMouse() }, true, false},
+		{"DisableMouse", func(s tcell.Screen) { s.DisableMouse() }, true, false},
+		{"EnablePaste", func(s tcell.Screen) { s.EnablePaste() }, true, false},
+		{"EnableFocus", func(s tcell.Screen) { s.EnableFocus() }, false, false},
+		{"Beep", func(s tcell.Screen) { _ = s.Beep() }, false, false},
+		{"CanDisplay", func(s tcell.Screen) { s.CanDisplay('é', true) }, true, false},
+		{"HasKey", func(s tcell.Screen) { s.HasKey(tcell.KeyF5) }, false, false},
+		{"HasMouse", func(s tcell.Screen) { s.HasMouse() }, false, false},
+		{"Colors", func(s tcell.Screen) { s.Colors() }, false, false},
+		{"CharacterSet", func(s tcell.Screen) { s.CharacterSet() }, false, false},
+		{"RegisterRuneFallback", func(s tcell.Screen) { s.RegisterRuneFallback(0x2603, "*") }, true, false},
+		{"UnregisterRuneFallback", func(s tcell.Screen) { s.UnregisterRuneFallback(tcell.RuneBullet) }, true, false},
+		{"SetTitle", func(s tcell.Screen) { s.SetTitle("t") }, true, false},
+		{"SetClipboard", func(s tcell.Screen) { s.SetClipboard([]byte("c")) }, true, false},
+		{"GetClipboard", func(s tcell.Screen) { s.GetClipboard() }, false, false},
+		{"LockRegion", func(s tcell.Screen) { s.LockRegion(0, 0, 1, 1, true) }, true, false},
+		{"PostEvent", func(s tcell.Screen) { _ = s.PostEvent(tcell.NewEventInterrupt(1)) }, true, false},
+		{"PollEvent", func(s tcell.Screen) { _ = s.PostEvent(tcell.NewEventInterrupt(2)); s.PollEvent() }, true, false},
+		{"HasPendingEvent", func(s tcell.Screen) { s.HasPendingEvent() }, true, false},
+		{"Suspend", func(s tcell.Screen) { _ = s.Suspend() }, false, false},
+		{"SuspendResume", func(s tcell.Screen) { _ = s.Suspend(); _ = s.Resume() }, false, false},
+		{"Fini", func(s tcell.Screen) { s.Fini() }, true, false},
+		// the test double's own API
+		{"GetContents", func(s tcell.Screen) {
+			cells, _, _ := s.(tcell.SimulationScreen).GetContents()
+			n := 0
+			for i := range cells { // the caller looks at what it was given
+				n += len(cells[i].Bytes) + len(cells[i].Runes)
+				_ = cells[i].Style
+			}
+		}, true, true},
+		{"GetCursor", func(s tcell.Screen) { s.(tcell.SimulationScreen).GetCursor() }, true, true},
+		{"InjectKey", func(s tcell.Screen) { s.(tcell.SimulationScreen).InjectKey(tcell.KeyRune, 'k', tcell.ModNone) }, true, true},
+		{"InjectKeyBytes", func(s tcell.Screen) { s.(tcell.SimulationScreen).InjectKeyBytes([]byte{0xc4, 0xe3, 'a'}) }, true, true},
+		{"InjectMouse", func(s tcell.Screen) { s.(tcell.SimulationScreen).InjectMouse(1, 1, tcell.Button1, tcell.ModNone) }, true, true},
 	}
 }
 
@@ -74,8 +88,10 @@ func c10Scenarios() []scenario {
 	}
 	for a := range ops {
 		for b := a; b < len(ops); b++ {
-			add(&pairs, c10p{a: a, b: b, c: -1, traffic: true})
-			add(&quietPairs, c10p{a: a, b: b, c: -1})
+			if !ops[a].simOnly && !ops[b].simOnly {
+				add(&pairs, c10p{a: a, b: b, c: -1, traffic: true})
+				add(&quietPairs, c10p{a: a, b: b, c: -1})
+			}
 			if ops[a].sim && ops[b].sim {
 				add(&simPairs, c10p{a: a, b: b, c: -1, sim: true})
 			}
@@ -84,9 +100,15 @@ func c10Scenarios() []scenario {
 	// the same calls where the locale selects a stateful encoder (shared mutable object behind
 	// encodeRune / CanDisplay): every pair with at least one drawing or charset-dependent call
 	var legacyPairs []string
-	charsetOps := map[string]bool{"Show": true, "Sync": true, "CanDisplay": true, "CharacterSet": true, "RegisterRuneFallback": true, "UnregisterRuneFallback": true, "SetSize": true, "Fill": true}
+	charsetOps := map[string]bool{"InjectKeyBytes": true, "GetContents": true, "Show": true, "Sync": true, "CanDisplay": true, "CharacterSet": true, "RegisterRuneFallback": true, "UnregisterRuneFallback": true, "SetSize": true, "Fill": true}
 	for a := range ops {
 		for b := a; b < len(ops); b++ {
+			if (charsetOps[ops[a].name] || charsetOps[ops[b].name]) && (ops[a].simOnly || ops[b].simOnly) {
+				if ops[a].sim && ops[b].sim {
+					add(&legacyPairs, c10p{a: a, b: b, c: -1, sim: true, legacy: true})
+				}
+				continue
+			}
 			if charsetOps[ops[a].name] || charsetOps[ops[b].name] {
 				add(&legacyPairs, c10p{a: a, b: b, c: -1, traffic: true, legacy: true})
 				if ops[a].sim && ops[b].sim {
@@ -143,7 +165,7 @@ func c10prog(ps string, res *result) func() {
 		if p.sim {
 			cs := "UTF-8"
 			if p.legacy {
-				cs = "US-ASCII"
+				cs = "GB2312" // HZ: single-byte, unencodable runes go to the fallback table, and its codec is stateful
 			}
 			ss := tcell.NewSimulationScreen(cs)
 			if err := ss.Init(); err != nil {
